@@ -4,7 +4,7 @@ set -e
 cd "$(dirname "$0")"
 export CARGO_NET_OFFLINE=true
 mkdir -p .work evidence
-[ -f harness/Cargo.lock ] || cp /repo/Cargo.lock harness/Cargo.lock
+[ -f harness/Cargo.lock ] || cp repo-link/Cargo.lock harness/Cargo.lock
 (cd harness && cargo build --offline)
 if [ -f tools/xlate.py ]; then python3 tools/xlate.py; fi
 (cd lean && lake build GdVerif gdmodel)
